@@ -5,6 +5,7 @@ import ast
 import re
 
 from vk import astx, align, seqeval
+from vk.report import shape_rule
 from vk.algebra import Normalizer, bool_key, literals, spec_rat, spec_guard, NotClosedForm
 from vk.loader import AnalysisError
 from rules import c12
@@ -146,6 +147,7 @@ RANKING_DRAWS = {
 }
 
 
+@shape_rule
 def g2_draw_table(ctx):
     prog = ctx.prog
     for qn, want in RANKING_DRAWS.items():
@@ -180,6 +182,7 @@ def g2_draw_table(ctx):
               f"length bookkeeping is {order} under {d1} / {d2}")
 
 
+@shape_rule
 def g3_shape(ctx):
     prog = ctx.prog
     n = 0
